@@ -198,17 +198,21 @@ def run_shard(sh):
 
 # ---- SPD ---------------------------------------------------------------------------------------------
 def spd_images():
-    import glob
-    from litedram.modules import parse_spd_hexdump
+    """the Micron reference SPD tables under test/spd_data (CSV: Part Number, Byte Number, Byte Description, Byte Value)"""
+    import glob, csv
     repo = os.environ.get("VERIF_REPO", "/repo")
     out = []
-    for fn in sorted(glob.glob(os.path.join(repo, "test", "spd_data", "*"))):
-        try:
-            data = parse_spd_hexdump(fn)
-        except Exception:
-            continue
-        if len(data) > 128 and data[2] in (0x0b, 0x0c):
+    for fn in sorted(glob.glob(os.path.join(repo, "test", "spd_data", "*.csv"))):
+        data = [0] * 512
+        with open(fn) as f:
+            for row in csv.DictReader(f):
+                a = row["Byte Number"]
+                if len(a.split("-")) == 1:
+                    data[int(a)] = int(row["Byte Value"], 16)
+        if data[2] in (0x0b, 0x0c):
             out.append((os.path.basename(fn), data))
+    if not out:
+        raise RuntimeError("no SPD images found under %s/test/spd_data" % repo)
     return out
 
 
